@@ -4,7 +4,8 @@
 EXTENDS Stream
 CONSTANT AllowSelfColliding
 MCRecs == IF AllowSelfColliding THEN Recs ELSE {v \in Recs : ~SelfColliding(v)}
-MCNext == \E w \in Writers, v \in MCRecs : Write(w, v)
+MCFail == IF AllowSelfColliding THEN FailRecs ELSE {v \in FailRecs : ~SelfColliding(v)}
+MCNext == (\E w \in Writers, v \in MCRecs : Write(w, v)) \/ (\E w \in Writers, v \in MCFail : FailWrite(w, v))
 MCSpec == Init /\ [][MCNext]_vars
 \* the history variable is what makes states distinct; keep it (PerStream needs it) but bound by MaxOps
 =============================================================================
